@@ -58,21 +58,27 @@ def fail (st : SpecSt) (msg : String) : SpecSt :=
 /-- `read_is_function_of_time`: table keyed by (generator name, seed, time) -/
 def checkTd (dynTD : Bool) (st : SpecSt) (i : Nat) (e : OEv) : SpecSt :=
   if !dynTD || !(isRead e.tag || isForce e.tag) then st else
-  match e.touched with
-  | some { g := _, kind := .td n s } =>
+  -- (name, seed, time the value is a function of): a TimeSampledFn shares its table with the
+  -- distribution it samples, at the sample time
+  let key : Option (String × Int × Int) := match e.touched with
+    | some { g := _, kind := .td n s } => some (n, s, e.clock.time)
+    | some { g := _, kind := .sampled n s p o } => some (n, s, sampleTime e.clock.time p o)
+    | _ => none
+  match key with
+  | some (n, s, t) =>
     let placeholder (st : SpecSt) : SpecSt :=
       fail st s!"event {i} ({e.tag}): read of a time-dependent generator returned the placeholder at time {e.clock.time}"
     match e.res with
     | .ok .none => placeholder st
     | .raised "ValueError" => placeholder st
     | .ok v =>
-      match st.table.lookup (n, s, e.clock.time) with
+      match st.table.lookup (n, s, t) with
       | some v' =>
         if v == v' then { st with checked := st.checked + 1 }
-        else fail st s!"event {i} ({e.tag}): generator ({n}, {s}) at time {e.clock.time} returned a value different from an earlier read at that time"
-      | none => { st with table := ((n, s, e.clock.time), v) :: st.table, checked := st.checked + 1 }
+        else fail st s!"event {i} ({e.tag}): generator ({n}, {s}) at time {t} returned a value different from an earlier read at that time"
+      | none => { st with table := ((n, s, t), v) :: st.table, checked := st.checked + 1 }
     | _ => st
-  | _ => st
+  | none => st
 
 /-- `repeated_read_same` -/
 def checkRepeat (dynTD : Bool) (st : SpecSt) (i : Nat) (e : OEv) : SpecSt :=
@@ -119,6 +125,16 @@ def checkFailedRead (st : SpecSt) (i : Nat) (e : OEv) : SpecSt :=
        else fail st s!"event {i} ({e.tag}): the generator raised {x} but a cached value / time stamp changed")
     else st
   | _ => st
+
+/-- `read_keeps_clock`: reading, forcing or inspecting a value does not move the clock -/
+def checkReadKeepsClock (st : SpecSt) (i : Nat) (e : OEv) : SpecSt :=
+  if !(isRead e.tag || isForce e.tag || isInspect e.tag) then st else
+  if e.clock.time != st.prev.clock.time then
+    fail st s!"event {i} ({e.tag}): the time was {st.prev.clock.time} before and is {e.clock.time} after"
+  else if e.clock.timestep != st.prev.clock.timestep || e.clock.untl != st.prev.clock.untl
+      || e.clock.depth != st.prev.clock.depth then
+    fail st s!"event {i} ({e.tag}): timestep / until / context stack changed"
+  else { st with checked := st.checked + 1 }
 
 /-- `inspect_never_advances` -/
 def checkInspect (st : SpecSt) (i : Nat) (e : OEv) : SpecSt :=
@@ -189,6 +205,7 @@ def specStep (dynTD : Bool) (acc : SpecSt × Nat) (e : OEv) : SpecSt × Nat :=
   let st := checkRepeat dynTD st i e
   let st := checkSameTime dynTD st i e
   let st := checkFailedRead st i e
+  let st := checkReadKeepsClock st i e
   let st := checkInspect st i e
   let st := checkCtx st i e
   let st := checkPushPop st i e
